@@ -511,8 +511,9 @@ fn same_result(direct: &str, abi: &str) -> bool {
 }
 
 pub fn run(ctx: &mut Ctx) {
-    let scenarios = ctx.t(60, 1500);
-    let steps = ctx.t(40, 60);
+    // under Miri every shard runs one or two short scenarios
+    let scenarios = if cfg!(miri) { ctx.nshards * 2 } else { ctx.t(60, 1500) };
+    let steps = if cfg!(miri) { 38 } else { ctx.t(40, 60) };
     for sc in 0..scenarios {
         if !ctx.mine(sc) {
             continue;
